@@ -66,6 +66,8 @@ Explains(r) ==
 
 NonTrivial(r) == LET L == Lex(r.text, {}) IN L.ok /\ Len(L.toks) >= 2
 
+Unjudged(r) == ~Lex(r.text, {}).dom
+
 J == INSTANCE JudgeLoop
 Spec == J!Spec
 =============================================================================
